@@ -192,6 +192,41 @@ def rule_pipeline(ctx, rep, rid="R-C06-pipeline"):
     r.note("%d analyzer functions scanned for positional indexing of Library.elements" % n)
 
 
+STABLE_OK = ("slice::<impl [T]>::sort", "slice::<impl [T]>::sort_by", "slice::<impl [T]>::sort_by_key", "slice::<impl [T]>::sort_by_cached_key")
+
+
+def rule_stable(ctx, rep, rid="R-C06-stable"):
+    """Elements that compare equal under a sort key keep their relative order only under a stable sort.  An unstable sort
+    (sort_unstable*, select_nth_unstable*) of declarations, diagnostics or tokens makes the order of equal-keyed elements
+    an artefact of the algorithm and of the input length.  Unstable sorts of plain integers/strings are harmless (equal elements
+    are indistinguishable) and are accepted."""
+    r = rep.rule(rid, "no unstable sort of structured elements in product code (equal keys would be ordered by the algorithm, not by the input)",
+                 floor=0, floor_what="sort call sites")
+    n = 0
+    for b in sorted(ctx.prog.bodies.values(), key=lambda x: x.id):
+        if b.f["crate"] not in PRODUCT or "::test" in norm(b.id):
+            continue
+        k = 0
+        for c in sorted(b.calls(), key=lambda c: (c.loc[0], c.loc[1])):
+            nm = c.callee or ""
+            m = nm.split("::")[-1]
+            if not (m.startswith("sort") or m.startswith("select_nth_unstable")) or "slice" not in nm:
+                continue
+            n += 1
+            k += 1
+            inst = "%s|%s#%d" % (norm(b.id), m, k)
+            elem = (c.ga or "").strip("[]").split(",")[0].strip()
+            plain = elem in ("u8", "u16", "u32", "u64", "u128", "usize", "i8", "i16", "i32", "i64", "i128", "isize", "char", "bool", "alloc::string::String", "&str")
+            if "unstable" in m and not plain:
+                r.finding(inst + "|unstable", loc_str(b.f, c.loc), "%s over %s: elements with equal keys come out in an order that depends on the algorithm and the number of elements, "
+                          "not only on the input" % (m, elem or "structured elements"))
+            else:
+                r.ok(inst, loc_str(b.f, c.loc), "stable" if "unstable" not in m else "unstable over indistinguishable equal elements (%s)" % elem)
+    if not n:
+        r.count_override = 1
+        r.note("no sort call in product code today (rule expects zero unstable sorts; the positive example is seeded/C06-J)")
+
+
 def run(ctx, rep):
     rep.not_decided += ["that verdicts/codes are invariant under permutation and partition (value-level; e.g. which node of a cycle toposort reports)",
                         "petgraph's toposort determinism for a given insertion order (trusted)"]
@@ -199,6 +234,10 @@ def run(ctx, rep):
     rule_hash(ctx, rep)
     rule_types(ctx, rep)
     rule_pipeline(ctx, rep)
+    rule_stable(ctx, rep)
+    # the sort only removes the dependence on the order of declarations if every reference is an edge
+    from rules.c07 import rule_decl_edges
+    rule_decl_edges(ctx, rep, rid="R-C06-decledges", order_only=True)
     from rules.c03 import rule_allsources
     rule_allsources(ctx, rep, rid="R-C06-allsources")
     from rules.c02 import rule_stackend
